@@ -130,8 +130,16 @@ func TestVerifSigBounded(t *testing.T) {
 			shapes = append(shapes, []Input{a, b, {Name: "i", Type: "bytes32", Indexed: true}, val})
 		}
 	}
+	// all integrations are built first and exercised afterwards, as the task
+	// loader does: what one construction returns must not be changed by the next
+	type built struct {
+		ev   Event
+		ig   Integration
+		nidx int
+	}
+	var igs []built
 	for si, ins := range shapes {
-		ev := Event{Name: "G", Type: "event", Inputs: ins}
+		ev := Event{Name: fmt.Sprintf("G%d", si%3), Type: "event", Inputs: ins}
 		nidx := 0
 		for _, in := range ins {
 			if in.Indexed {
@@ -145,6 +153,10 @@ func TestVerifSigBounded(t *testing.T) {
 			fmt.Printf("BOUNDED-FAIL gate shape %d: New: %v\n", si, err)
 			continue
 		}
+		igs = append(igs, built{ev, ig, nidx})
+	}
+	for _, b := range igs {
+		ev, ig, nidx := b.ev, b.ig, b.nidx
 		good := keccak(ev.Signature())
 		bad := keccak("G(uint256)x")
 		for nt := 1; nt <= 5; nt++ {
